@@ -6,11 +6,11 @@ import samplib as S
 PID = "C03"
 LEVEL = "proof"
 NEED_RELEASE = True
-COQ_TARGETS = ["Props/C03.vo", "Props/C03_fp.vo", "Props/C03_support.vo", "Props/C03_refuted.vo", "Props/C03_discrete.vo"]
-PROPS_FILES = ["C03", "C03_fp", "C03_support", "C03_refuted", "C03_discrete"]
+COQ_TARGETS = ["Props/C03.vo", "Props/C03_fp.vo", "Props/C03_support.vo", "Props/C03_refuted.vo", "Props/C03_discrete.vo", "Props/C03_fl.vo"]
+PROPS_FILES = ["C03", "C03_fp", "C03_support", "C03_refuted", "C03_discrete", "C03_fl"]
 THEOREMS = ["C03_frechet_refuted", "C03_frechet_except_known", "C03_gumbel_refuted", "C03_gumbel_except_known", "C03_beta_in_unit", "C03_gamma_nonneg", "C03_fingerprints",
             "C03_geometric_support", "C03_zeta_support", "C03_zipf_support", "C03_poisson_support", "C03_binv_support", "C03_std_geometric_support",
-            "C03_lognormal_pos", "C03_fisher_f_nonneg", "C03_inverse_gaussian_pos", "C03_btpe_support", "C03_binomial_support", "C03_h2pe_branch_support", "C03_hypergeometric_support"]
+            "C03_beta_final_in_unit", "C03_exp_tail_defined", "C03_lognormal_pos", "C03_fisher_f_nonneg", "C03_inverse_gaussian_pos", "C03_btpe_support", "C03_binomial_support", "C03_h2pe_branch_support", "C03_hypergeometric_support"]
 TRUSTED_BASE = [
     "Coq 8.16.1 kernel; integer-exact support theorems (alias/tree indices: C08/C10) and ideal-real support theorems on the "
     "sampler models (Proofs/Support.v) — the models are tied to the code by C01's pathwise correspondence",
@@ -21,7 +21,9 @@ TRUSTED_BASE = [
     "Ahrens-Dieter PD: step F's index >= 0), Binomial (constant, Poisson limit, BINV walk stops at x <= n, BTPE: both f64_to_u64 assertions, "
     "the saturating cast and n - y of step 5.3, with and without the flip), Hypergeometric (HIN, H2PE region 1 inside [0, min(n1,k)] so the "
     "u64 products of step 4.1 cannot underflow, all four reflections; N < 2^51)",
-    "the IEEE-level part of this property (what a float program returns when a draw is exactly 0, 1/2 or its maximum) is decided by "
+    "Props/C03_fl.v (Flocq, any binary format): the libm-free last step of Beta::sample - the `w == inf` guard and the reflection - returns "
+    "a finite float in [0, 1] for every finite b > 0 and every w that is +inf or finite and >= 0",
+    "the rest of the IEEE-level part of this property (what a float program returns when a draw is exactly 0, 1/2 or its maximum) is decided by "
     "the DIRECT ORACLE on the real code, not by a theorem: support predicate + catch_unwind over the single-word-adversarial lattice "
     "(DESIGN.md App. D) x parameter points of envelope E, and the exhaustive sweep of all 2^24 high-bit patterns of one word for "
     "every f32 sampler (harness/src/samp.rs: sweep, lat) in debug (overflow checks) and release builds",
